@@ -796,17 +796,34 @@ def drain_before_leave_rule(chk: Check, rule: str) -> None:
                 tests = [a for a in ancestors(br) if isinstance(a, ast.If) and is_within(a, h)]
                 alive_then_empty = False
                 alive_only = False
+                empty_first = False
                 for t in tests:
                     conj = t.test.values if isinstance(t.test, ast.BoolOp) and isinstance(t.test.op, ast.And) else [t.test]
-                    i_alive = next((i for i, c in enumerate(conj) if "is_alive" in unparse(c, 300)), None)
+                    def liveness(c: ast.AST) -> bool:
+                        if "is_alive" in unparse(c, 300):
+                            return True
+                        # one level: a property / method whose body is the liveness test (`pool.is_finished`)
+                        for a in ast.walk(c):
+                            if isinstance(a, ast.Attribute):
+                                for f_ in P.find_function_by_name(a.attr):
+                                    if f_.cls is not None and not isinstance(f_.node, ast.Lambda) and "is_alive" in unparse(f_.node, 2000) and len(f_.node.body) <= 3:
+                                        return True
+                        return False
+                    i_alive = next((i for i, c in enumerate(conj) if liveness(c)), None)
                     i_empty = next((i for i, c in enumerate(conj) if any(isinstance(x, ast.Call) and last_attr(x) in ("empty", "qsize") for x in ast.walk(c))), None)
                     if i_alive is not None and i_empty is not None and i_empty > i_alive:
                         alive_then_empty = True
+                    elif i_alive is not None and i_empty is not None:
+                        empty_first = True
                     elif i_alive is not None:
                         alive_only = True
                 # a nested re-check (`if dead: if q.empty(): break`) is normalised to the conjunction by the loader
                 if alive_then_empty:
                     chk.ok(rule, fn, construct, "", fn.loc(br))
+                elif empty_first:
+                    chk.violation(rule, fn, construct,
+                                  "the queue is tested for emptiness BEFORE the producers are known to be dead (`q.empty() and <all dead>` is evaluated left to right): the answer is stale - the last worker may put its final events and exit between the two tests, the loop is left with ScenarioFinished (and its failures) still in the queue: an announced scenario is never closed in an uninterrupted run",
+                                  fn.loc(br))
                 elif alive_only:
                     chk.violation(rule, fn, construct,
                                   "the loop is left as soon as no producer thread is alive, although `queue.Empty` was raised BEFORE that test: a worker that put its last events and exited in between loses them (legal schedule: the main thread is descheduled after the timeout) - ScenarioFinished(FAILURE) and its failures never reach the handlers, the phase ends SKIP and the process exits 0",
